@@ -118,7 +118,7 @@ MCStreams ==
   Strings(Alpha, MaxLen)
   \cup {Enc(a) : a \in Argvs(2)}
   \cup {Enc(a) \o Enc(b) : a, b \in Argvs(1)}
-  \cup UNION {Mut(b) : b \in {Enc(<<A_a>>), Enc(<<CRLF, <<>>>>), Enc(<<A_a>>) \o Enc(<<<<R_STAR>>>>)}}
+  \cup UNION {Mut(b) : b \in (IF Deep THEN {Enc(<<A_a>>), Enc(<<CRLF, <<>>>>), Enc(<<A_a>>) \o Enc(<<<<R_STAR>>>>)} ELSE {Enc(<<A_a>>)})}
   \cup UNION {LenStreams(l) : l \in DeclLens}
 
 \* vector modes do not explore the state machine
